@@ -83,6 +83,18 @@ theorem direction_always (cfg : Config) (s : Shexer.Stmt) : (propShapeOf cfg s).
   unfold propShapeOf
   split <;> rfl
 
+/-- a disjunction (`disable_or_statements = False`) becomes one `sh:or` whose alternatives are, in order, the restrictions of the
+ShExC alternatives - each exactly what a single constraint of that type would get (`restrictionOf`) - with the path, direction and
+counts of the statement; a plain constraint gets its single restriction (beyond the property's stated domain, which leaves
+disjunctions at their default; covers the repair that replaced the `TypeError`) -/
+theorem disjunction_alternatives (cfg : Config) (s : Shexer.Stmt) (h : (s.prop == cfg.instProp) = false) :
+    (propShapeOf cfg s).restr = (if s.choice then Restriction.anyOf s.types else restrictionOf s.ty) ∧
+    (propShapeOf cfg s).path = s.prop ∧ (propShapeOf cfg s).inverse = s.inverse ∧
+    ((propShapeOf cfg s).min, (propShapeOf cfg s).max) = interval s.card := by
+  unfold propShapeOf
+  rw [h]
+  exact ⟨rfl, rfl, rfl, cardinality s.card⟩
+
 /-- instantiation constraints: single allowed class value, counts of the statement's cardinality -/
 theorem instantiation_constraint (cfg : Config) (s : Shexer.Stmt) (h : (s.prop == cfg.instProp) = true) :
     (propShapeOf cfg s).restr = Restriction.inValue s.ty ∧ ((propShapeOf cfg s).min, (propShapeOf cfg s).max) = interval s.card := by
